@@ -6,7 +6,7 @@
                         + #live fidRefs whose parent is r + #live xattr fidRefs borrowing r,
     every counted reference points at an existing fidRef, one table entry per key. *)
 From Coq Require Import List Arith Bool ZArith.
-From P9V Require Import Refs.Model Refs.PathFS Refs.Cases Refs.RefProofs Refs.RefStep Refs.LifeProofs Refs.LifeStep Refs.ErrPaths Refs.FenceProofs.
+From P9V Require Import Refs.Model Refs.PathFS Refs.Cases Refs.RefProofs Refs.RefStep Refs.LifeProofs Refs.LifeStep Refs.ErrPaths Refs.Disconnect Refs.FenceProofs.
 Import ListNotations.
 
 (** C05_inv: for every history of requests from the initial state and every backend, the reference-count
@@ -70,22 +70,37 @@ Proof.
 Qed.
 Print Assumptions C05_closed_iff_unreferenced.
 
-(** PARTIAL: C05_disconnect.  For every history and backend after which no fid is bound any more (every
-    connection stopped) and no panic was flagged: every handle ever returned is closed EXACTLY once -
-    under the hypothesis [ordered]: the parent of every live fidRef has a smaller id.  [ordered] holds
-    by construction as long as no rename re-parents a fidRef under a younger one; deriving it for all
-    histories needs assumption B2 (no move of a directory into its own subtree) and the tree invariant
-    and is NOT proved (without it parent links may be cyclic and Files leak).  Also not proved here:
-    that OStop of a connection removes all of its table entries (by inspection of [stop_loop]). *)
-Theorem C05_disconnect_partial : forall B bstep ops (b : B),
-  let s := snd (run B bstep ops (init_state B b)) in
-  s_fids B s = [] -> s_panic B s = false -> ordered B s ->
-  forall h, h < s_nexth B s -> close_count h (s_log B s) = 1.
+(** C05_disconnect, part 1: connState.stop (OStop c) removes every fid-table entry of connection c and
+    nothing else is added; so once every connection that holds a fid has been stopped, no fid is bound. *)
+Theorem C05_stop_empties_table : forall B bstep c (s : sstate B) k,
+  In k (fkeys B (snd (step B bstep (OStop c) s))) -> In k (fkeys B s) /\ fst k <> c.
+Proof. intros B bstep c s k. exact (stop_clears B bstep c s k). Qed.
+Print Assumptions C05_stop_empties_table.
+
+(** C05_disconnect: for every history and backend, followed by the disconnect of every connection that
+    still holds a fid: no fid is bound any more and - unless a run-time panic was flagged - every File the
+    backend ever returned has been closed EXACTLY once, PROVIDED [ranked]: the parent / xattr-origin links
+    of the live fidRefs are well founded.  [ranked] is a hypothesis, not proved: it is genuinely false for a
+    backend that lets a directory be renamed below itself (violating assumption B2: then two live fidRefs
+    become each other's ancestors, keep each other alive after the last fid is gone, and their Files leak).
+    It follows from [ordered] (parent id < own id), which holds by construction in rename-free histories.
+    Deriving it for all histories from B2 needs [tree_inv] (proved, Refs/TreeStep.v), [tree_closed] and
+    "a detached node is never re-attached" (both not proved); see coq/Refs/HANDOVER.md. *)
+Theorem C05_disconnect : forall B bstep ops (b : B) cs,
+  let s0 := snd (run B bstep ops (init_state B b)) in
+  let s := snd (run B bstep (map OStop cs) s0) in
+  (forall k, In k (fkeys B s0) -> In (fst k) cs) ->
+  s_fids B s = [] /\
+  (s_panic B s = false -> ranked B s -> forall h, h < s_nexth B s -> close_count h (s_log B s) = 1).
+Proof. exact disconnect_closes_all. Qed.
+Print Assumptions C05_disconnect.
+
+Theorem C05_ordered_ranked : forall B bstep ops (b : B),
+  let s := snd (run B bstep ops (init_state B b)) in ordered B s -> ranked B s.
 Proof.
-  intros B bstep ops b. cbv zeta. destruct (history_life B bstep ops b) as (I & K & _ & H). intros EF EP Ord.
-  exact (all_closed_exactly_once B _ I K EF (H EP) Ord).
+  intros B bstep ops b. cbv zeta. destruct (history_life B bstep ops b) as (_ & K & _ & _). apply ordered_ranked. exact K.
 Qed.
-Print Assumptions C05_disconnect_partial.
+Print Assumptions C05_ordered_ranked.
 
 (** C05_no_use_after_close, for every history and backend, for every File method: in the backend call
     log (newest first) no call to the left of a Close uses the closed handle - as the File it is invoked
@@ -115,11 +130,26 @@ Proof.
 Qed.
 Print Assumptions C05_error_paths.
 
-(** PARTIAL (what is missing of C05_error_paths: Tattach).  The building block shared by Tattach: a
-    failing walkOne (all of its error paths, both walk flavours, wrong QID count) leaves no File behind -
-    either no handle was handed out or the last backend call closes it.  For Tattach the same argument
-    as for C05_error_paths applies (Refs/ErrPaths.v) but is not written out. *)
-Theorem C05_error_paths_partial : forall B bstep from_h from_node nm getattr s,
+(** C05_error_paths for Tattach, after every history and for every backend: an attach that fails - the
+    backend's Attach fails, GetAttr on the new root fails, or the walk fails at whatever component and for
+    whatever reason - has, when it is answered, closed exactly once every File the backend returned during
+    the request, the root File included.  (The Go branch "!valid.Mode" takes the same exit as a GetAttr
+    error; the model's GetAttr answers always carry a Mode, so that branch is covered only as that exit.) *)
+Theorem C05_error_paths_attach : forall B bstep ops (b : B) c fid names,
+  let s := snd (run B bstep ops (init_state B b)) in
+  let r := step B bstep (OAttach c fid names) s in
+  s_panic B s = false -> fst (fst r) <> 0 -> s_panic B (snd r) = false ->
+  forall h, s_nexth B s <= h -> h < s_nexth B (snd r) -> close_count h (s_log B (snd r)) = 1.
+Proof.
+  intros B bstep ops b c fid names. cbv zeta. destruct (history_life B bstep ops b) as (I & K & W & H).
+  intros Hp. exact (attach_error_closes_all B bstep c fid names _ I K W (H Hp)).
+Qed.
+Print Assumptions C05_error_paths_attach.
+
+(** The building block shared by Twalk and Tattach: a failing walkOne (all of its error paths, both walk
+    flavours, wrong QID count) leaves no File behind - either no handle was handed out or the last
+    backend call closes it. *)
+Theorem C05_walk_one_handles : forall B bstep from_h from_node nm getattr s,
   let nh := s_nexth B s in
   let r := walk_one B bstep from_h from_node nm getattr s in
   match fst r with
@@ -127,7 +157,7 @@ Theorem C05_error_paths_partial : forall B bstep from_h from_node nm getattr s,
   | WFail _ => s_nexth B (snd r) = nh \/ (s_nexth B (snd r) = S nh /\ hd_error (s_log B (snd r)) = Some (BClose nh))
   end.
 Proof. exact walk_one_handles. Qed.
-Print Assumptions C05_error_paths_partial.
+Print Assumptions C05_walk_one_handles.
 
 (** The hypotheses are satisfiable and the properties hold on a concrete history (a test, not the claim):
     xattr fid borrowing a File, failed 3-component walk, fid replacement, disconnect. *)
